@@ -191,6 +191,7 @@ func (w *World) violate(oracle, witness, format string, a ...any) {
 func (w *World) Run() {
 	if w.CheckIntake {
 		w.builderRefusals()
+		w.clientRefusals()
 	}
 	for i := range w.Plan.Steps {
 		w.step = i
